@@ -558,6 +558,38 @@ def containers(root):
         elif _volatile(v) and id(v) not in seen:
             seen.add(id(v))
             out.append(_Vol(v))
+        elif _callable_with_state(v) and id(v) not in seen:
+            seen.add(id(v))
+            stack.extend(x for _, x in _callable_state(v))
+    return out
+
+
+def _callable_with_state(v):
+    import types
+    import functools
+    if isinstance(v, types.FunctionType):
+        return bool(v.__closure__)
+    if isinstance(v, types.MethodType):
+        s_ = v.__self__
+        return _pkg_instance(s_) or _volatile(s_) or isinstance(s_, (dict, list))
+    return isinstance(v, functools.partial)
+
+
+def _callable_state(v):
+    import types
+    import functools
+    out = []
+    if isinstance(v, types.FunctionType):
+        for nm, cell in zip(v.__code__.co_freevars, v.__closure__ or ()):
+            try:
+                out.append((nm, cell.cell_contents))
+            except ValueError:
+                pass
+    elif isinstance(v, types.MethodType):
+        out.append(("self", v.__self__))
+    elif isinstance(v, functools.partial):
+        out += [("arg%d" % i, a) for i, a in enumerate(v.args)] + [(k, a) for k, a in (v.keywords or {}).items()]
+        out.append(("func", v.func))
     return out
 
 
@@ -649,6 +681,11 @@ def _walk(path0, v0, out, seen, scratch_values):
                 stack.append((path + "/" + str(i), x))
         elif v is None:
             pass            # None is the "not computed yet" marker of every memo attribute: absent
+        elif _callable_with_state(v) and id(v) not in seen:
+            seen[id(v)] = path          # a callable kept in state: what it closes over / is bound to is state too
+            out[path] = _leaf(v, path)
+            for nm, x in _callable_state(v):
+                stack.append((path + "/<" + nm + ">", x))
         else:
             p = path[1:]
             if p.startswith(SCRATCH_PREFIXES):
